@@ -641,6 +641,8 @@ def _jobs(ctx):
 
 
 def run(ctx):
+    from vf.gen import registry as _registry  # pylint: disable=import-outside-toplevel
+    _registry.warm()
     jobs = _jobs(ctx)
     stats = pool.run_shards(_job, jobs)
     stats.extra['layers'] = sorted(LAYERS) + ['SshProtocolMessage (prefix-never-accepted only)']
